@@ -490,6 +490,7 @@ def run(spec, rec, spin):
     classes = set()
     nontrivial = False
     copy_at = spec.get("copy_at")
+    left_behind = None
     rows = 1 << nx
     xs = [ref.assignment(labels, r, spin) for r in range(rows)]
 
@@ -498,6 +499,7 @@ def run(spec, rec, spin):
             C = lib(M.copy, what="copy")
             if type(C) is not type(M):
                 raise Violation("copy_type", "%s.copy() -> %s" % (type(M).__name__, type(C).__name__))
+            left_behind = (M, list(recorded), {l for l in M.variables if _is_anc(l)})
             M = C
             classes.add("copied_midway")
         if spec.get("refresh_at") is not None and idx == spec.get("refresh_at"):
@@ -648,6 +650,23 @@ def run(spec, rec, spin):
                                 "%s; is_solution_valid(%r) = %r, recorded relations %r give %r" % (
                                     ctx, sol, got, [(rl, pt, ref.ref_value(pt, xs[r])) for rl, pt in recorded], want))
         rec.add("validity_checks", rows)
+
+    # the model that was copied mid-way knows nothing of what happened to its copy afterwards
+    if left_behind is not None:
+        O, o_recorded, o_anc = left_behind
+        for r in range(rows):
+            sol = dict(xs[r])
+            for l in o_anc:
+                sol[l] = 1
+            want = all(ref.REL[rl](ref.ref_value(pt, xs[r])) for rl, pt in o_recorded)
+            got = lib(O.is_solution_valid, sol, what="is_solution_valid(original after copy)")
+            if bool(got) != want:
+                raise Violation("original_affected_by_constraints_on_copy",
+                                "original of the mid-way copy: is_solution_valid(%r) = %r, its own relations %r give %r" % (
+                                    sol, got, o_recorded, want))
+        if len(O.constraints.get("eq", [])) + sum(len(v) for k, v in O.constraints.items() if k != "eq") != len(o_recorded):
+            raise Violation("original_constraints_changed_by_copy",
+                            "original recorded %d relations before the copy, now reports %r" % (len(o_recorded), O.constraints))
 
     classes.add("constraints:%d" % len(spec["cons"]))
     rec.case(spec, nontrivial, sorted(classes))
